@@ -2035,6 +2035,25 @@ def df_method(it, obj, name, args, kw):
         d = obj.copy()
         d.index = "range"
         return d
+    if name == "drop" and ("index" in kw or (args and kw.get("axis", 0) in (0, "index") and "columns" not in kw)) and set(kw) <= {"index", "axis", "labels"}:
+        # rows removed by index LABEL
+        idx = kw.get("index", kw.get("labels", args[0] if args else None))
+        if isinstance(idx, MaskIdx):
+            if obj.index != "range":
+                raise Raised("IndexMisalignment", "row positions (np.flatnonzero / np.nonzero of a mask) used as index labels in `.drop(index=rows)` of a table whose index is not known "
+                             "to be 0..n-1: the rows carrying those numbers as labels are removed (or a KeyError is raised), not the rows at those positions")
+            return df_select(obj, Vec([not (m is True) if isinstance(m, bool) else None for m in idx.mask.v]))
+        if isinstance(idx, (Vec, list, tuple)) and obj.exact and (obj.labels is not None or obj.index == "range"):
+            want = list(idx.v) if isinstance(idx, Vec) else list(idx)
+            own = list(obj.labels) if obj.labels is not None else list(range(obj.n))
+            if all(isinstance(x, int) and not isinstance(x, bool) for x in want):
+                missing = [x for x in want if x not in own]
+                if missing:
+                    raise Raised("KeyError", f"{missing} not found in axis")
+                keep = Vec([l not in want for l in own])
+                keep.exact = True
+                return df_select(obj, keep)
+        raise Undecided("DataFrame.drop(index=<labels that are not literal>)")
     if name == "drop":
         cols = args[0] if args else kw.get("columns")
         if kw.get("axis") == 1 or "columns" in kw:
